@@ -12,7 +12,7 @@ EXPLANATION = ('Static rule set over the MIR event graphs of every Observer impl
                'E2 every producer loop / repeating task consults is_finished before each next; '
                'E3 RepeatTask::poll returns Ready without re-arming when the task declines; '
                'E4 a terminal sent from inside next() is sent on a value take()n out of the slot; '
-               'E6 the early terminators (take, take_while(_inclusive)) really end the stream when their condition is met, i.e. empty their slot so that is_finished turns true upstream (same rule as C03.S8); E5 a stream-driving task consults is_finished between an emission and the next suspension (Pending), so a stream '
+               'E7 is_finished() of every Observer impl is a pure read (shared guards only, no effect): producers ask it from inside running emissions; E6 the early terminators (take, take_while(_inclusive)) really end the stream when their condition is met, i.e. empty their slot so that is_finished turns true upstream (same rule as C03.S8); E5 a stream-driving task consults is_finished between an emission and the next suspension (Pending), so a stream '
                'ended from inside next() retires the task even when the inner stream stays quiet. '
                'Decides the retirement protocol per impl; does not decide timing ("within one period").')
 ASSUMPTIONS = ['leaf observers (role table) are the ends of a pipeline and may answer is_finished locally']
@@ -38,6 +38,7 @@ def check(cx):
     out += e4(cx)
     out += e5(cx)
     out += e6(cx)
+    out += e7(cx)
     return out
 
 
@@ -341,4 +342,15 @@ def e6(cx):
             out.append(Finding(ID, 'E6', f.key, f.ok, f.msg, f.loc, f.witness))
     if len(out) < 2:
         out.append(Finding(ID, 'E6', 'floor', False, 'expected take and take_while, found %d' % len(out)))
+    return out
+
+
+def e7(cx):
+    if cx.control:
+        return []
+    from . import c03
+    fns = [cx.method(im, 'is_finished') for im in cx.observer_impls()]
+    out = c03.query_findings(cx, [f for f in fns if f is not None], ID, 'E7', 'is_finished()')
+    if len(out) < 60:
+        out.append(Finding(ID, 'E7', 'floor', False, 'only %d is_finished() implementations found' % len(out)))
     return out
